@@ -76,9 +76,11 @@ def node(root, shift=0):
     return walk(root)
 
 
-def value(root):
+def value(root, ordered=True):
     """Type-strict canonical form of an object graph; containers numbered by first visit
-    (sharing and cycles are part of the value); sets sorted by the canonical form."""
+    (sharing and cycles are part of the value); sets sorted by the canonical form.
+    ordered=False: the pairs of a dict are visited in the order of their keys' canonical
+    forms instead of iteration order (equality of mappings as mathematical objects)."""
     seen = {}
 
     def walk(v):
@@ -107,7 +109,10 @@ def value(root):
             if isinstance(v, (list, tuple)):
                 return {t.__name__: [walk(x) for x in v], 'id': n}
             if isinstance(v, dict):
-                return {t.__name__: [[walk(k), walk(x)] for k, x in v.items()], 'id': n}
+                items = list(v.items())
+                if not ordered:
+                    items.sort(key=lambda kv: jdump(value(kv[0])))
+                return {t.__name__: [[walk(k), walk(x)] for k, x in items], 'id': n}
             if isinstance(v, (set, frozenset)):
                 return {t.__name__: sorted((walk(x) for x in v), key=jdump), 'id': n}
             if isinstance(v, (types.FunctionType, types.BuiltinFunctionType, type, types.ModuleType)):
